@@ -1,6 +1,6 @@
 (* C11 — property theorems only: each restates the full statement and is closed by the lemma proved in Proofs/. *)
 From Coq Require Import ZArith List Bool.
-From NPS Require Import ListAux PySlice NumpySem Scatter BuildIdx XorBroadcast View Index Assign Reduce Scan RaOps Heap Hash HashRun BitArr RLE RLEOps RLE2d DataClass RowsSpec AssignSpec MapSpec Denote HashInit HashSet HashProof HashEq HashItems CounterProof HashRunProof.
+From NPS Require Import ListAux PySlice NumpySem Scatter BuildIdx XorBroadcast View Index Assign Reduce Scan RaOps Heap Hash HashRun BitArr RLE RLEOps RLE2d DataClass RowsSpec AssignSpec MapSpec Denote HashInit HashSet HashProof HashEq HashAdd HashItems CounterProof HashRunProof.
 Import ListNotations.
 Open Scope Z_scope.
 
@@ -54,6 +54,36 @@ Theorem C11_tbl_eq_correct :
        Inv V dv t2 d2 -> tbl_eq V veq dv t1 t2 = true <-> (forall k : Z, aget V d1 k = aget V d2 k).
 Proof. exact tbl_eq_correct. Qed.
 Print Assumptions C11_tbl_eq_correct.
+
+Theorem C11_tbl_add_correct :
+  forall (V : Type) (dv : V) (vadd : V -> V -> V) (t1 t2 : table V) (d1 d2 : assoc V) (t : table V),
+       Inv V dv t1 d1 ->
+       Inv V dv t2 d2 ->
+       tbl_add V vadd t1 t2 = Ok t -> t_keys t2 = t_keys t1 /\ Inv V dv t (dict_add V dv vadd d1 d2).
+Proof. exact tbl_add_correct. Qed.
+Print Assumptions C11_tbl_add_correct.
+
+Theorem C11_tbl_add_refusal :
+  forall (V : Type) (vadd : V -> V -> V) (t1 t2 : table V),
+       (exists t : table V, tbl_add V vadd t1 t2 = Ok t) <-> t_keys t1 = t_keys t2.
+Proof. exact tbl_add_refusal. Qed.
+Print Assumptions C11_tbl_add_refusal.
+
+Theorem C11_tbl_add_lookup :
+  forall (V : Type) (dv : V) (vadd : V -> V -> V) (t1 t2 : table V) (d1 d2 : assoc V) 
+         (t : table V) (k : Z) (v1 v2 : V),
+       Inv V dv t1 d1 ->
+       Inv V dv t2 d2 ->
+       tbl_add V vadd t1 t2 = Ok t ->
+       aget V d1 k = Some v1 -> aget V d2 k = Some v2 -> getv V dv t [k] = Ok [vadd v1 v2].
+Proof. exact tbl_add_lookup. Qed.
+Print Assumptions C11_tbl_add_lookup.
+
+Theorem C11_tbl_like_correct :
+  forall (V : Type) (dv : V) (t : table V) (d : assoc V) (v : V),
+       Inv V dv t d -> Inv V dv (tbl_like V t v) (map (fun kv : Z * V => (fst kv, v)) d).
+Proof. exact tbl_like_correct. Qed.
+Print Assumptions C11_tbl_like_correct.
 
 Theorem C11_items_correct :
   forall (V : Type) (dv : V) (t : table V) (d : assoc V),
